@@ -12,6 +12,8 @@ pub const K6: &str = "c15.negative_zero_time";
 
 #[derive(Clone, Debug)]
 pub struct Doc {
+    /// format version of the header line (map-level processing does not depend on it)
+    pub ver: i32,
     pub mode: u8,
     pub sm: &'static str,
     /// (time, rest of the line)
@@ -35,7 +37,7 @@ fn sh(t: f64, k: f64) -> f64 {
 }
 
 pub fn render(d: &Doc, k: f64) -> String {
-    let mut s = format!("osu file format v14\n\n[General]\nMode: {}\n\n[Difficulty]\nSliderMultiplier:{}\n\n[Events]\n", d.mode, d.sm);
+    let mut s = format!("osu file format v{}\n\n[General]\nMode: {}\n\n[Difficulty]\nSliderMultiplier:{}\n\n[Events]\n", d.ver, d.mode, d.sm);
     for (a, b) in &d.breaks {
         s.push_str(&format!("2,{},{}\n", ft(sh(*a, k)), ft(sh(*b, k))));
     }
@@ -142,7 +144,7 @@ pub fn gen_doc(t: &mut Tape) -> Doc {
             objs.push((time, None, format!("{x},100"), format!("1,{}", t.below(16))));
         }
     }
-    Doc { mode, sm, tps, breaks, objs }
+    Doc { ver: 14, mode, sm, tps, breaks, objs }
 }
 
 fn close(a: f64, b: f64) -> bool {
@@ -336,8 +338,10 @@ fn doc_json(d: &Doc, k: f64) -> Value {
 }
 
 /// probe for the known finding: some object times become 0 and -0
+const VERSIONS: &[i32] = &[14, 14, 14, 3, 5, 7, 8, 9, 12, 128, 6, 4, 10, 13];
+
 pub fn gen_case_neg_zero(t: &mut Tape) -> (Doc, f64) {
-    let (mut d, _) = gen_case(t);
+    let (mut d, _) = gen_case_v14(t);
     for o in d.objs.iter_mut() {
         if t.chance(45) {
             let e = o.1.map(|e| e - o.0);
@@ -345,6 +349,8 @@ pub fn gen_case_neg_zero(t: &mut Tape) -> (Doc, f64) {
             o.1 = e.map(|e| e.max(0.0));
         }
     }
+    // (read last: earlier tapes keep their meaning)
+    d.ver = *t.pick(VERSIONS);
     (d, 0.0)
 }
 
@@ -367,6 +373,12 @@ pub fn classify_k6(d: &Doc, k: f64) -> bool {
 }
 
 pub fn gen_case(t: &mut Tape) -> (Doc, f64) {
+    let (mut d, k) = gen_case_v14(t);
+    d.ver = *t.pick(VERSIONS);
+    (d, k)
+}
+
+fn gen_case_v14(t: &mut Tape) -> (Doc, f64) {
     let d = gen_doc(t);
     let k = match t.weighted(&[1, 3, 3]) {
         0 => 0.0,
